@@ -150,7 +150,9 @@ Definition is_cmp (op : bop) : bool := match op with BEq | BSEq | BNe | BSNe | B
 Definition call_method (st : state) (o : nat) (m : string) (args : list val) : res (val * state) :=
   let? x := get_obj st o in
   let st' := {| objs := objs st; trace := ECallM o m args :: trace st |} in
-  if String.eqb m "compute" then match args with [a] => let? v := coerce "i" a in match v with VI n => Def (VI (Z.land n 1023 + 7), st') | _ => Stuck "compute" end | _ => Stuck "compute" end
+  if String.eqb m "compute" then match args with [a] => let? v := coerce "i" a in
+                                                          match v with VI n => Def (VI (Z.land n 1023 + 7), {| objs := objs st; trace := ECallM o m [v] :: trace st |}) | _ => Stuck "compute" end
+                                                | _ => Stuck "compute" end
   else if String.eqb m "flag" then match args with [] => Def (VB (o_b x), st') | _ => Stuck "flag" end
   else if String.eqb m "label" then match args with [] => Def (VS (o_s x), st') | _ => Stuck "label" end
   else if String.eqb m "child" then match args with [] => Def (VP (o_next x), st') | _ => Stuck "child" end
